@@ -295,31 +295,47 @@ func TestVerif(t *testing.T) {
 		}
 		return
 	}
-	bound := ctx.Param("bound", 1)
-	maxHist := ctx.Param("events", 2)
+	// levels: "E.B/E.B/..." - each level explores, with at most B deviations, the histories of exactly E events (the first
+	// level: of at most E events), cheapest first; a level is reported as completed only if every shard finished it
+	levels := ctx.ParamS("levels", "2.2")
 	alpha := []string{"cfg", "cfgerr", "hup", "term", "shutdown", "ctx", "async"}
 	plans := [][]string{{"ok", "ok", "ok"}, {"ok", "failstart"}, {"ok", "badcfg"}, {"ok", "failstop", "ok"}, {"failstart"}, {"badcfg"}}
-	var hists [][]string
-	var rec func(cur []string)
-	rec = func(cur []string) {
-		if len(cur) > 0 {
-			hists = append(hists, append([]string{}, cur...))
+	histsOf := func(minLen, maxLen int) [][]string {
+		var hists [][]string
+		var rec func(cur []string)
+		rec = func(cur []string) {
+			if len(cur) >= minLen {
+				hists = append(hists, append([]string{}, cur...))
+			}
+			if len(cur) == maxLen {
+				return
+			}
+			for _, a := range alpha {
+				rec(append(cur, a))
+			}
 		}
-		if len(cur) == maxHist {
-			return
-		}
-		for _, a := range alpha {
-			rec(append(cur, a))
-		}
+		rec(nil)
+		return hists
 	}
-	rec(nil)
-	hists = append(hists, []string{})
 	var n, nodes int64
-	maxBound := bound
-	startBound := ctx.Param("start_bound", maxBound) // thorough: iterative deepening from the quick tier's bound
-	completed := startBound - 1
-	defer func() { ctx.R.Extra["bound_completed"] = completed }()
-	for bound = startBound; bound <= maxBound; bound++ {
+	completedLevels := 0
+	var done []string
+	defer func() {
+		ctx.R.Extra["levels_completed"] = completedLevels
+		ctx.R.Extra["levels"] = levels
+	}()
+	bound := 0
+	for li, lv := range strings.Split(levels, "/") {
+	var maxHist int
+	if _, err := fmt.Sscanf(lv, "%d.%d", &maxHist, &bound); err != nil {
+		ctx.Infra("bad level %q", lv)
+		return
+	}
+	minLen := maxHist
+	if li == 0 {
+		minLen = 0
+	}
+	hists := histsOf(minLen, maxHist)
 	all := true
 	for _, plan := range plans {
 		for _, h := range hists {
@@ -329,7 +345,7 @@ func TestVerif(t *testing.T) {
 			}
 			if ctx.Expired() {
 				ctx.R.States = ctx.R.Evals + nodes
-				ctx.Cap(fmt.Sprintf("time budget reached at bound %d; complete up to bound %d", bound, completed))
+				ctx.Cap(fmt.Sprintf("time budget reached in level %s (events.bound); completed levels: %v", lv, done))
 				return
 			}
 			var res result
@@ -360,7 +376,7 @@ func TestVerif(t *testing.T) {
 			}
 			if st.Capped {
 				all = false
-				ctx.Cap(fmt.Sprintf("time budget reached at bound %d", bound))
+				ctx.Cap(fmt.Sprintf("time budget reached in level %s", lv))
 			}
 			ctx.R.Trans += st.Steps
 			nodes += st.Nodes
@@ -369,7 +385,8 @@ func TestVerif(t *testing.T) {
 	if !all {
 		break
 	}
-	completed = bound
+	completedLevels = li + 1
+	done = append(done, lv)
 	}
 	ctx.R.States = nodes
 }
